@@ -120,7 +120,7 @@ def _quoteattr(data, entities={}):
         strings; each key will be replaced with its corresponding value.
     """
     entities['\n']='&#10;'
-    entities['\r']='&#12;'
+    entities['\r']='&#13;'
     data = _sanitize(data, entities)
     if '"' in data:
         if "'" in data:
